@@ -3,6 +3,8 @@
 package executorcmd
 
 import (
+	"time"
+
 	"github.com/AliceO2Group/Control/common/controlmode"
 	"github.com/AliceO2Group/Control/executor/executorcmd/transitioner"
 	pb "github.com/AliceO2Group/Control/executor/protos"
@@ -18,4 +20,24 @@ func NewClientForVerif(occClient pb.OccClient, controlMode controlmode.ControlMo
 	client.Transitioner = transitioner.NewTransitioner(controlMode, client.doTransition)
 	client.Log = log
 	return client
+}
+
+// DialForVerif stands for the blocking gRPC dial of NewClient: it returns the OccClient of the
+// simulated task listening on the control port, or nil when nothing answers within the timeout.
+var DialForVerif func(controlPort uint64, timeout time.Duration) pb.OccClient
+
+// NewClientDialedForVerif has the signature and the outcomes of NewClient (nil when the dial
+// fails), with DialForVerif in place of grpc.DialContext.
+func NewClientDialedForVerif(
+	controlPort uint64,
+	controlMode controlmode.ControlMode,
+	controlTransport ControlTransport,
+	log *logrus.Entry,
+) *RpcClient {
+	occClient := DialForVerif(controlPort, GRPC_DIAL_TIMEOUT)
+	if occClient == nil {
+		log.WithField("controlPort", controlPort).Error("gRPC client can't dial")
+		return nil
+	}
+	return NewClientForVerif(occClient, controlMode, log)
 }
